@@ -686,3 +686,7 @@ V("c02-detector-uses-forward-permutation", "C02", "R02.6", "dask_array/_blockwis
   "        inv = expr._inverse_axes\n        dep_mapping = tuple(parent_mapping[inv[i]] for i in range(len(inv)))", "        dep_mapping = tuple(parent_mapping[ax] for ax in expr.axes)", expect="_symbolic_mapping")
 V("c02-twin-detector-local-rename", "C02", "-", "dask_array/_blockwise.py",
   "        inv = expr._inverse_axes\n        dep_mapping = tuple(parent_mapping[inv[i]] for i in range(len(inv)))", "        inverse = expr._inverse_axes\n        dep_mapping = tuple(parent_mapping[j] for j in inverse)", twin=True)
+
+V("c02-new-user-func-node-slices-inputs", "C02", "R02.7", "dask_array/reductions/_cumulative.py", None, None, expect="CumReduction::_accept_slice", edits=[
+  ("dask_array/reductions/_cumulative.py", "    _parameters = [\"array\", \"func\", \"binop\", \"ident\", \"axis\", \"_dtype\"]\n", "    _parameters = [\"array\", \"func\", \"binop\", \"ident\", \"axis\", \"_dtype\"]\n\n    def _accept_slice(self, slice_expr):\n        from dask_array._new_collection import new_collection\n\n        index = slice_expr.index\n        return type(self)(new_collection(self.array)[tuple(index)].expr, *self.operands[1:])\n"),
+])
